@@ -982,6 +982,16 @@ package rewriter
 //@   modifies W
 
 //@ pred GenSig(t *ast.FuncType) := t != nil && t.Results != nil && len(t.Results.List) > 0 && t.Results.List[0] != nil && WfExpr(t.Results.List[0].Type)
+// the safety net behind pass 2 (C12): once the generators of a file are rewritten, no identifier of the file refers to co.Yield /
+// co.YieldFrom any more; a reference that is left (a func value, a use pass 2 did not reach) would compile to a call of the
+// empty stub, so it stops the compiler with a diagnostic
+//@ func (r *rewriter) rejectResidualYield(c, pkg) (ok)
+//@   requires c != nil && !isnil(r.yieldFunc) && !isnil(r.yieldFromFunc)      -- mkRewriter: Loader.MustLookup
+//@   requires isa(cursorNode(c), Ident) ==> !isnil(cursorNode(c))
+//@   ensures[descend] ok
+//@   ensures[no-residual-reference] isa(cursorNode(c), Ident) ==> !(objectOf(as(cursorNode(c), Ident)) == r.yieldFunc) && !(objectOf(as(cursorNode(c), Ident)) == r.yieldFromFunc)
+//@   ensures[read-only] W == old(W)
+
 //@ func (r *yieldRewriter) rewriteYieldFunc(funTy, body)
 //@   reveal wf-ast
 //@   requires r.rewriter != nil && !(r.rewriter.seqImportedName == "_") && GenSig(funTy) && body != nil
